@@ -132,6 +132,19 @@ class HSelector:
         return out
 
 
+import threading as _threading
+
+
+class QuickEvent(_threading.Event):
+    """threading.Event for the single-threaded harnesses: a wait WITH a timeout returns at once (no other thread exists that
+    could set the event meanwhile).  Installed on every plain Event the transport holds, under whatever attribute name."""
+
+    def wait(self, timeout=None):
+        if timeout is not None:
+            return self.is_set()
+        return _threading.Event.wait(self, timeout)
+
+
 class PumpingEvent:
     """transport.write_mode_on for single-threaded harnesses: while the state-machine thread waits for the transport to
     leave write mode, the transport thread runs (one pass of its real loop body per wait)"""
@@ -217,6 +230,12 @@ class Node:
         t.is_connected = connected
         if connected:
             self.sel.register(self.sock, selectors.EVENT_READ | (selectors.EVENT_WRITE if role == "CLIENT" else 0))
+        for k, v in list(vars(t).items()):
+            if type(v) is _threading.Event:
+                q = QuickEvent()
+                if v.is_set():
+                    q.set()
+                setattr(t, k, q)
         t.write_mode_on = PumpingEvent(t)
         self.transport = t
         self.assoc.transport = t
@@ -233,9 +252,8 @@ class Node:
         Node._tick(self.psm)
 
     def worker_step(self):
-        """one iteration of the real receive-worker loop (the Event wait returns at once: data is already there)"""
-        if self.assoc.transport is not None:
-            self.assoc.transport._recv_data_available.set()
+        """one iteration of the real receive-worker loop (its Event wait returns at once: nobody else could set the event in
+        a single-threaded run, see QuickEvent)"""
         Node._worker_step(self.assoc)
 
     def force_state(self, name):
